@@ -16,6 +16,7 @@ PROP_MODULES = {
     'C02': ['obligations.e2_jobs', 'obligations.cache_ops'],
     'C13': ['obligations.e2_jobs'],
     'C06': ['obligations.block_ops'],
+    'C17': ['obligations.check_ops'],
     'C11': ['obligations.persist_ops'],
     'C12': ['obligations.persist_ops'],
     'C05': ['obligations.conc_ops', 'obligations.block_ops'],
